@@ -21,6 +21,16 @@ FIXTURE_DISKS = ["fixed.vhd", "dynamic.vhd", "fixed.vhdx", "dynamic.vhdx", "sesp
 OTHER = ["hyperv:test.vmcx", "hyperv:test.VMRS", "envelope", "keystore", "vmtar", "vmx"]
 
 
+def _dense(cfg: dict) -> None:
+    """Fault worlds use dense files: with far (sparse) placements a huge read or an endless walk over a hole is the storage's
+    doing, not the reader's. All far-placement knobs are switched off."""
+    for k in ("data_far", "l2_far", "comp_far", "data_base_mb", "snap_far"):
+        if cfg.get(k):
+            cfg[k] = 0
+    if cfg.get("far"):
+        cfg["far"] = False
+
+
 def stub_spec(seed: int, k: int, variant: int, tier: str) -> dict:
     """A stub image spec of STUB_KINDS[k] (re-drawn until the wanted features are present)."""
     fmt, want = STUB_KINDS[k]
@@ -30,9 +40,7 @@ def stub_spec(seed: int, k: int, variant: int, tier: str) -> dict:
         cfg = dc["cfg"]
         if cfg["nsectors"] * 512 > (64 << 20):
             continue
-        # fault worlds use dense files: with far (sparse) placements a huge read or loop over a hole is the storage's doing
-        if any(cfg.get(k) for k in ("data_far", "l2_far", "comp_far", "data_base_mb", "far")):
-            continue
+        _dense(cfg)
         if all(cfg.get(a) == b for a, b in want.items()):
             if want.get("compress") and not any(op[0] == "c" for op in dc["ops"]):
                 units = sorted({op[1] // disk.fmt_module(fmt).unit_sectors(cfg) for op in dc["ops"] if op[0] == "w"})
@@ -47,9 +55,13 @@ def chain_spec(seed: int, kind: str, variant: int, tier: str) -> dict:
     rng = rng_for(seed, "chainbase", kind, variant)
     for _ in range(200):
         cc = chains.gen_case(rng.getrandbits(50), "C11", tier, kind=kind)
-        far = any(any(L.get("cfg", {}).get(k) for k in ("data_far", "l2_far", "comp_far", "data_base_mb", "far")) for L in cc["layers"])
-        far = far or any(x.get("far") for L in cc["layers"] for x in L.get("exts", []))
-        if not cc.get("fault") and cc["loc"] in ("same", "sibling") and not far:
+        for L in cc["layers"]:
+            _dense(L.get("cfg") or {})
+            for x in L.get("exts", []):
+                _dense(x)
+            for x in L.get("cfgs", []):
+                _dense(x)
+        if not cc.get("fault") and cc["loc"] in ("same", "sibling"):
             cc["cops"] = cc["cops"][:4]
             return {"type": "chain", "ccase": cc}
     raise RuntimeError("no chain spec")
@@ -59,7 +71,9 @@ def extents_spec(seed: int, variant: int, tier: str) -> dict:
     rng = rng_for(seed, "extbase", variant)
     for _ in range(200):
         ec = extents.gen_case(rng.getrandbits(50), "C11", tier)
-        if not ec.get("fault") and ec["mode"] == "descriptor" and len(ec["exts"]) >= 2 and not any(x["cfg"].get("far") for x in ec["exts"]):
+        for x in ec["exts"]:
+            _dense(x["cfg"])
+        if not ec.get("fault") and ec["mode"] == "descriptor" and len(ec["exts"]) >= 2:
             ec["cops"] = ec["cops"][:4]
             return {"type": "extents", "ecase": ec}
     raise RuntimeError("no extents spec")
